@@ -246,6 +246,12 @@ func DecShareBatch(
 // VerifyDecShare checks that the decrypted share sG satisfies
 // log_{G}(X) == log_{sG}(sX). Note that X = xG and sX = s(xG) = x(sG).
 func VerifyDecShare(suite Suite, G, X kyber.Point, encShare *PubVerShare, decShare *PubVerShare) error {
+	if decShare.S.I != encShare.S.I {
+		// the index is what places the share in the interpolation: a decrypted
+		// share must carry the index of the encrypted share it decrypts
+		return fmt.Errorf("didn't verify: %w", ErrDecVerification)
+	}
+
 	// Compute challenge for the decShare
 	h := suite.Hash()
 	var err error
